@@ -448,9 +448,11 @@ def prob_event_exact(
         raise ValueError("Maximum number of photons per mode must be non-negative")
 
     prob = 0
+    modes = graph.order()
 
     for orbit in orbits(photon_number):
-        if max(orbit) <= max_count_per_mode:
+        # partitions with more parts than modes contain no sample
+        if max(orbit) <= max_count_per_mode and len(orbit) <= modes:
             prob += prob_orbit_exact(graph, orbit, n_mean, loss)
     return prob
 
